@@ -172,6 +172,63 @@ def run(repo, rep, tier):
         rep.fail("R-C16-2", fi.file, circ[0].lineno, fi.qualname, unparse(circ[0])[:120],
                  "the full-circle test must bound the ABSOLUTE deviation of max - min + dd from 360: without abs() every partial "
                  "direction sector counts as circular and its two ends are averaged into each other")
+    # ... and it must be a function of direction DIFFERENCES only (coverage = max - min + dd): a test that involves an absolute direction
+    # (dirs[-1] + dd - 360) holds for grids starting at 0 only, so a full-circle grid with another origin is not padded and the window does
+    # not wrap - smoothing then does not commute with circular shifts / relabelling of the direction axis
+    dirvars = set()
+    for n in ast.walk(fi.node):
+        if isinstance(n, ast.Assign) and isinstance(n.targets[0], ast.Name) and not isinstance(n.value, ast.Compare):
+            v = n.value
+            if any((isinstance(x, ast.Attribute) and x.attr in (D, "DIRNAME")) or (isinstance(x, ast.Constant) and x.value == D) for x in ast.walk(v)) \
+                    and not any(isinstance(x, ast.Call) and call_name(x).split(".")[-1] in ("diff", "isel", "sel", "sortby", "concat", "rolling", "assign_coords", "where", "chunk", "ediff1d", "gradient") for x in ast.walk(v)):
+                dirvars.add(n.targets[0].id)
+
+    def absdeg(e):
+        if isinstance(e, ast.Constant):
+            return 0
+        if isinstance(e, ast.Name):
+            return 1 if e.id in dirvars else 0
+        if isinstance(e, ast.Subscript):
+            return absdeg(e.value)
+        if isinstance(e, ast.Attribute):
+            return absdeg(e.value)
+        if isinstance(e, ast.Call):
+            nm = call_name(e).split(".")[-1] if call_name(e) else ""
+            if isinstance(e.func, ast.Attribute) and e.func.attr in ("max", "min", "item", "astype", "mean") and not e.args:
+                return absdeg(e.func.value)
+            if nm in ("max", "min", "float", "abs", "absolute", "amax", "amin", "asarray", "array") and e.args:
+                return absdeg(e.args[0])
+            if nm in ("diff", "ediff1d", "gradient", "ptp"):
+                return 0
+            return None
+        if isinstance(e, ast.UnaryOp):
+            d_ = absdeg(e.operand)
+            return None if d_ is None else (-d_ if isinstance(e.op, ast.USub) else d_)
+        if isinstance(e, ast.BinOp):
+            a_, b_ = absdeg(e.left), absdeg(e.right)
+            if a_ is None or b_ is None:
+                return None
+            if isinstance(e.op, ast.Add):
+                return a_ + b_
+            if isinstance(e.op, ast.Sub):
+                return a_ - b_
+            if isinstance(e.op, (ast.Mult, ast.Div)) and a_ == 0 and b_ == 0:
+                return 0
+            return None
+        return None
+    if dirvars and isinstance(lhs, ast.Call) and lhs.args:
+        dg = absdeg(lhs.args[0])
+        if dg is None:
+            raise AnalysisError(f"smooth_spec: circularity test {unparse(lhs)[:60]} not understood (direction-shift degree)")
+        if dg != 0:
+            rep.fail("R-C16-2", fi.file, circ[0].lineno, fi.qualname, unparse(circ[0])[:120],
+                     "the full-circle test depends on an absolute direction value, not only on direction differences (max - min + dd): a full-circle "
+                     "grid whose first direction is not 0 (5, 15, .., 355 or -180 .. 170) is not recognised, the window does not wrap across the seam, "
+                     "and smoothing no longer commutes with circular shifts of the direction axis")
+        else:
+            rep.ok("R-C16-2", f"{fi.file}:{circ[0].lineno} smooth_spec", unparse(lhs.args[0])[:80], "built from direction differences only: independent of the grid's origin")
+    elif not dirvars:
+        raise AnalysisError("smooth_spec: direction values variable not identified")
     guard = guards_
     if guard and all(pads[k][0] in list(ast.walk(guard[0])) for k in pads):
         rep.ok("R-C16-2", f"{fi.file}:{guard[0].lineno} smooth_spec", "if is_circular: pad", "padding only for full-circle grids")
@@ -232,6 +289,16 @@ def run(repo, rep, tier):
         from ..astutil import bound_args
         b_ = bound_args(repo, f2, c[0]) if c else None
         kws = {k_: unparse(v_) for k_, v_ in (b_ or {}).items()}
+        from ..astutil import resolve as _resolve
+        data_arg = (b_ or {}).get(P0)
+        if isinstance(data_arg, ast.Name):
+            data_arg = _resolve(f2.node, data_arg, before=c[0].lineno + 1) or data_arg
+        if data_arg is None or unparse(data_arg) != "self._obj":
+            rep.fail("R-C16-3", f2.file, c[0].lineno if c else f2.node.lineno, f2.qualname, unparse(c[0])[:110] if c else "smooth_spec call",
+                     f"the accessor hands smooth_spec {unparse(data_arg) if data_arg is not None else 'nothing'} instead of the array itself: smooth_spec "
+                     "restores the coordinates and order of ITS input, so the result comes back on the re-ordered grid, not on the caller's")
+        else:
+            rep.ok("R-C16-3", f"{f2.file}:{c[0].lineno} {f2.short}", "smooth_spec(self._obj, ..)", "the array itself is smoothed: its own grid is what is restored")
         if kws.get("freq_window") == "freq_window" and kws.get("dir_window") == "dir_window":
             rep.ok("R-C16-3", f"{f2.file}:{c[0].lineno} {f2.short}", unparse(c[0]), "windows passed to their own parameters")
         else:
